@@ -6,7 +6,8 @@ namespace PM
 
 /-! ### markup bookkeeping -/
 
-theorem sameMarkup_tyOf (S : Schema) {a b : Node} (h : a.sameMarkup b = true) : S.tyOf a = S.tyOf b := by
+/- primed: `sameMarkup_tyOf` (explicit arguments) lives in Proofs/CommuteMarkup.lean; the two files are now imported together -/
+theorem sameMarkup_tyOf' (S : Schema) {a b : Node} (h : a.sameMarkup b = true) : S.tyOf a = S.tyOf b := by
   cases a <;> cases b <;> simp_all [Node.sameMarkup, Schema.tyOf, Node.tyOr]
 
 theorem sameMarkup_join {a b c : Node} (h1 : a.sameMarkup c = true) (h2 : b.sameMarkup c = true) :
@@ -164,7 +165,7 @@ theorem merge_replace_toks (S : Schema) (d d1 d2 d' : Node) (f t f' t' : Nat) (s
 
 /-! ### mark / mark -/
 
-theorem ctxAux_shape : ∀ (l l' : List Tok) (st : List TypeId),
+private theorem ctxAux_shape : ∀ (l l' : List Tok) (st : List TypeId),
     l.map Tok.shape = l'.map Tok.shape → ctxAux st l = ctxAux st l'
   | [], [], _, _ => rfl
   | [], _ :: _, _, h => by simp at h
@@ -175,7 +176,7 @@ theorem ctxAux_shape : ∀ (l l' : List Tok) (st : List TypeId),
     cases a <;> cases b <;> simp [Tok.shape] at hab <;>
       simp [ctxAux, hab, ctxAux_shape r r' _ hr]
 
-theorem mapIdxCtx_length (g : Nat → TypeId → Tok → Tok) (top : TypeId) (l : List Tok) :
+private theorem mapIdxCtx_length (g : Nat → TypeId → Tok → Tok) (top : TypeId) (l : List Tok) :
     (mapIdxCtx g top l).length = l.length := by
   simp [mapIdxCtx]
 
